@@ -222,14 +222,47 @@ def run_property(prop, tier='quick', replay=None):
             gen = prop.cases(tier, seed)
             ctx = mp.get_context('fork')
             with ctx.Pool(NPROC, initializer=_init_worker, initargs=(prop,)) as pool:
-                def feed():
-                    nonlocal exhausted
-                    for c in gen:
-                        if time.time() > deadline:
-                            exhausted = False
+                # bounded in-flight submission: the generator is consumed lazily, so the budget really stops the feed
+                import collections
+                cs = getattr(prop, 'chunksize', 1)
+                pending = collections.deque()
+                gen_it = iter(gen)
+                done_feeding = False
+
+                def chunk():
+                    out_ = []
+                    for c_ in gen_it:
+                        out_.append(c_)
+                        if len(out_) >= cs:
+                            break
+                    return out_
+
+                def results():
+                    nonlocal done_feeding, exhausted
+                    while True:
+                        while not done_feeding and len(pending) < 3 * NPROC:
+                            if time.time() > deadline:
+                                done_feeding, exhausted = True, False
+                                break
+                            ch = chunk()
+                            if not ch:
+                                done_feeding = True
+                                break
+                            pending.append(pool.map_async(_run_one, ch))
+                        if not pending:
                             return
-                        yield c
-                for status, case, res, secs in pool.imap_unordered(_run_one, feed(), chunksize=getattr(prop, 'chunksize', 1)):
+                        # take whichever chunk is ready first (keeps workers busy without reordering concerns)
+                        for _ in range(len(pending)):
+                            r_ = pending.popleft()
+                            if r_.ready():
+                                for item in r_.get():
+                                    yield item
+                                break
+                            pending.append(r_)
+                        else:
+                            pending[0].wait(0.05)
+
+                for status, case, res, secs in results():
                     n_eval += 1
                     if status == 'error':
                         errors.append(dict(case=case, error=res))
